@@ -3,6 +3,7 @@ correspondence of the model with the implementation on generated operation seque
 import concurrent.futures as cf
 import json
 import os
+import re
 import sys
 import time
 
@@ -66,6 +67,22 @@ class Outcome:
         self.errors = []
 
 
+def spec_admits(sout, iout):
+    """spec column: alternatives separated by ';'. An alternative is a literal output, or
+    `fresh:<ip>:<lo>-<hi>:!p1,p2,...` = `ok <ip>:<p>` for any port lo <= p <= hi not in the excluded list."""
+    for alt in sout.split(";"):
+        if alt == iout:
+            return True
+        if alt.startswith("fresh:"):
+            _, ip, rng, excl = alt.split(":", 3)
+            lo, hi = rng.split("-")
+            bad = set(x for x in excl[1:].split(",") if x)
+            m = re.fullmatch(r"ok ([0-9.]+):(\d+)", iout)
+            if m and m.group(1) == ip and int(lo) <= int(m.group(2)) <= int(hi) and m.group(2) not in bad:
+                return True
+    return False
+
+
 def compare_shard(cfg, ops_p, impl_p, model_p, oc, tag):
     ops, impl, model = read_lines(ops_p), read_lines(impl_p), read_lines(model_p)
     if not (len(ops) == len(impl) == len(model)):
@@ -113,7 +130,7 @@ def compare_shard(cfg, ops_p, impl_p, model_p, oc, tag):
         oc.outkinds[k] = oc.outkinds.get(k, 0) + 1
         if case_failed:
             continue
-        if sout != "*" and iout not in sout.split(";"):
+        if sout != "*" and not spec_admits(sout, iout):
             oc.spec_viol.append((tag, start, i, iout, sout))
             case_failed = True
         elif iout != mout:
